@@ -96,7 +96,7 @@ StringDictionaryRPDAC::StringDictionaryRPDAC(IteratorDictString *it) {
 
   // Building the array for the sequence
   rp->Cdac =
-      new DAC_VLS(cdict, ic - 2, bits(rp->rules + rp->terminals), maxseq);
+      new DAC_VLS(cdict, ic - 1, bits(rp->rules + rp->terminals), maxseq);
 
   delete[] cdict;
 }
